@@ -118,3 +118,198 @@ Example C02_ex_run_before_repair :
   | _ => False
   end.
 Proof. vm_compute. reflexivity. Qed.
+
+(* ------------------------------------------------------------------------------------------------
+   (3) "the emulator accepts the trace", as theorems about the composed models (added after the
+   summary above was written; C02_conformant_valid_partial is kept as it was).
+
+   Models composed (all pre-existing): the runtime model above; the stream loader Emu/StreamDefs.v
+   (C12: run = Run VEnd recs iff the file is structurally valid, recs = the (offset, size, clock)
+   records delivered); the event decoder DecodeDefs/MarkDefs.decode_all; the emulator core
+   Emu/EmuCoreDefs.v (run = handlers + propagation to the PRV layer + end-of-trace checks).
+   Definitions of this part: Rt/RtEmuDefs.v; proofs: Proofs/RtEmuProofs.v, Proofs/RtDiskKinds.v
+   (runtime side), Proofs/RtLoaderBridge.v (codec format = loader format).
+
+   emu_ready ms cpus lint ops  (Rt/RtEmuDefs.v) decides the conformant emulator-ready programs of one
+   thread: every call is OHx (payload of at least 4 bytes whose first int32 is a CPU index of the
+   list cpus) / OHe / OHp / OHr / OHc / OHw following the documented thread state machine from
+   Unknown to Dead, an event the emulator ignores (OU?, OB?, OCn, OHC: any payload, jumbo or not), a
+   mark call on a type of ms (push / pop with stack discipline, at most 512 deep, on a stack type;
+   set on a single type; value not 0), or ovni_flush(); with lint, all mark stacks are empty at the
+   end.  The mark types ms (ovni_mark_type: metadata, not part of the buffer model) are a parameter.
+   Automatic flushes are not visible in ops: they are whatever the runtime model does.
+
+   Hypotheses beyond those of C02_valid_stream_always, each needed by a model and stated:
+     cap <= 2^31          the loader refuses events of 2^31 bytes or more (int arithmetic, C19);
+     clock_i63b clock     the emulator reads the clock as int64_t: see C02_accepted_needs_i63_refuted;
+     blen disk < 2^63     assumption of the loader model (C12);
+   and the static description sx of the trace as the emulator builds it from the metadata: the enabled
+   models en (any subset of the eight, ovni included), the channels of en followed by one channel per
+   mark type, distinct non-negative mark types, one thread with tid, pid <> 0, every CPU index of cpus
+   present in the thread's loom.  NOT covered: stream.json / metadata parsing (2), clock offsets,
+   more than one stream in the composition (the emulator-core theorem C02_core_accepts is for any
+   number of threads), events of other models, affinity events in the composition. *)
+From OV Require Emu.LoaderPre Emu.StreamDefs Proofs.StreamProofs.
+From OV Require Import Emu.EmuCoreDefs Emu.DecodeDefs Emu.MarkDefs Proofs.EmuCoreProofs Proofs.EmuCoreWf Proofs.TotalProofs
+  Rt.RtEmuDefs Proofs.RtEmuProofs.
+
+Theorem C02_conformant_accepted : forall cap ops clock s log sx en ms ti cpus lintchans junk,
+  64 <= cap -> cap <= 2 ^ 31 ->
+  forallb op_wfb ops = true -> clock_okb clock = true -> clock_i63b clock = true ->
+  emu_ready ms cpus (s_lint sx) ops = true ->
+  RtBufDefs.run true cap (ops ++ [Flush; Free]) clock = RtBufDefs.ROk (s, log) ->
+  LoaderPre.blen (disk_bytes s) < 2 ^ 63 ->
+  In en (sublists all_models) -> memz M_OVNI en = true ->
+  s_chans sx = mk_chans en ++ mark_chans ms ->
+  NoDup (map mt_type ms) -> (forall m, In m ms -> 0 <= mt_type m) ->
+  s_threads sx = [ti] -> ti_tid ti <> 0 -> ti_pid ti <> 0 ->
+  (forall idx, In idx cpus -> find_cpu sx (ti_loom ti) idx <> None) ->
+  exists recs ls,
+    StreamDefs.run (disk_bytes s) junk false = StreamDefs.Run StreamDefs.VEnd recs /\
+    EmuCoreDefs.run sx lintchans (decode_stream en (s_chans sx) (disk_bytes s) recs) = Ok ls.
+Proof. exact conformant_accepted. Qed.
+Print Assumptions C02_conformant_accepted.
+
+(* the emulator-core half on its own, for any number of threads and CPUs: every trace of thread state
+   events (affinity included, judged by the documented machine ThreadSpecDefs.spec_step), ignored
+   events, flush markers (alternating per thread) and marks (per-thread discipline) is accepted by
+   handlers, propagation, the PRV layer and the end-of-trace checks *)
+Theorem C02_core_accepts : forall sx ms lintchans tks,
+  MStatic sx ms -> mkinds_ready sx ms tks = true ->
+  exists ls, EmuCoreDefs.run sx lintchans (mkinds_events (s_chans sx) tks) = Ok ls.
+Proof. exact core_accepts_multi. Qed.
+Print Assumptions C02_core_accepts.
+
+(* ... where MStatic holds for the static description of every trace *)
+Theorem C02_static_of_trace : forall sx en ms,
+  In en (sublists all_models) -> memz M_OVNI en = true ->
+  s_chans sx = mk_chans en ++ mark_chans ms ->
+  NoDup (map mt_type ms) -> (forall m, In m ms -> 0 <= mt_type m) ->
+  (forall ti, In ti (s_threads sx) -> ti_tid ti <> 0 /\ ti_pid ti <> 0) ->
+  MStatic sx ms.
+Proof. exact mstatic_of_trace. Qed.
+Print Assumptions C02_static_of_trace.
+
+(* the PRV layer never refuses what an accepted handler step offers, as long as the raw channels hold
+   values their flags allow and no thread goes back to Unknown (generalises C04's oh_emit_total) *)
+Theorem C02_prv_total : forall sx st ls who ev st1 dirty,
+  wf_keys sx -> OhStatic sx -> Inv sx st ls ->
+  core_step sx st who ev = Ok (st1, dirty) ->
+  RawSafe sx st1 ->
+  (forall t, t_state (nth t (threads st1) dummy_thread) = Unknown -> t_state (nth t (threads st) dummy_thread) = Unknown) ->
+  exists res, emit_all (prv_last st1) (all_reqs sx st st1 dirty) = Ok res.
+Proof. exact emit_total_gen. Qed.
+Print Assumptions C02_prv_total.
+
+(* decode_all gives each event on disk the emulator-core event of its kind *)
+Theorem C02_decode_kind : forall en cs e k,
+  memz M_OVNI en = true -> uev_kind e = Some k ->
+  decode_all en cs (u_m e) (u_c e) (u_v e) (payload_of e) (u_jumbo e) 0 = kind_event cs k.
+Proof. exact decode_kind. Qed.
+Print Assumptions C02_decode_kind.
+
+(* Without clock_i63b the statement is false for the models: a conformant program (OHx, OHe, flush,
+   free) whose clock returns 2^63 leaves a valid stream (C02_valid_stream_always allows clocks up to
+   2^64 - 1) that the loader rejects: it reads the clock as int64_t, sees -2^63 < 0 and reports
+   "clock goes backwards".  Replay: harness/rtbuf_drv.c with the interposed clock returning 2^63. *)
+Theorem C02_accepted_needs_i63_refuted :
+  exists cap ops clock,
+    64 <= cap /\ cap <= 2 ^ 31 /\ forallb op_wfb ops = true /\ clock_okb clock = true /\
+    emu_ready [] [0] true ops = true /\
+    match RtBufDefs.run true cap (ops ++ [Flush; Free]) clock with
+    | RtBufDefs.ROk (s, _) =>
+      valid_stream (disk_bytes s) = true /\
+      StreamDefs.accepted (StreamDefs.run (disk_bytes s) StreamProofs.zero_junk false) = false
+    | _ => False
+    end.
+Proof. exact accepted_needs_i63_refuted. Qed.
+Print Assumptions C02_accepted_needs_i63_refuted.
+
+(* non-vacuity: a 64-byte buffer; OHx, a mark push, a 47-byte jumbo burst (63 bytes in the buffer:
+   it straddles the boundary and forces the second flush of the repaired add_flush_events), a pause /
+   resume across an explicit flush, a set on a single type, the pop, OHe; stack type 1, single type 2,
+   one CPU and the virtual CPU, lint on *)
+Definition ex3_ms : list mtype :=
+  [{| mt_type := 1; mt_title := [77]; mt_stack := true; mt_labels := [] |};
+   {| mt_type := 2; mt_title := [78]; mt_stack := false; mt_labels := [] |}].
+Definition ex3_ti : thread_info := {| ti_tid := 1000; ti_pid := 1000; ti_loom := 0; ti_appid := 1; ti_rank := -1 |}.
+Definition ex3_sx (en : list Z) : static :=
+  {| s_threads := [ex3_ti];
+     s_cpus := [{| ci_virtual := false; ci_loom := 0; ci_index := 0 |}; {| ci_virtual := true; ci_loom := 0; ci_index := -1 |}];
+     s_chans := mk_chans en ++ mark_chans ex3_ms; s_lint := true |}.
+Definition ex3_ops : list op :=
+  [Emit 79 72 120 [[0; 0; 0; 0]; [255; 255; 255; 255]; [0; 0; 0; 0; 0; 0; 0; 0]];
+   MarkPush 1 5; JumboEmit 79 66 46 (repeat 1 47); JumboEmit 79 66 46 (repeat 2 36);
+   Emit 79 85 120 [[1; 2]]; MarkPush 1 (-7); Emit 79 72 112 []; Flush; Emit 79 85 97 []; Emit 79 72 114 [];
+   JumboEmit 79 85 91 (repeat 3 24); MarkSet 2 (-1); MarkPop 1 (-7); MarkSet 2 9223372036854775807;
+   JumboEmit 79 66 46 []; MarkPop 1 5; Emit 79 72 101 []].
+Definition ex3_clock : list Z := map (fun n => 100 + 3 * Z.of_nat (n / 2)) (seq 0 100).
+
+Example C02_ex3_hypotheses :
+  forallb op_wfb ex3_ops = true /\ clock_okb ex3_clock = true /\ clock_i63b ex3_clock = true /\
+  emu_ready ex3_ms [0] true ex3_ops = true /\ find_cpu (ex3_sx [M_OVNI]) 0 0 <> None.
+Proof. vm_compute. repeat split; congruence. Qed.
+
+Definition ex3_accepted (en : list Z) : Prop :=
+  match RtBufDefs.run true 64 (ex3_ops ++ [Flush; Free]) ex3_clock with
+  | RtBufDefs.ROk (s, log) =>
+    length log = 16%nat /\ (5 <= length (wr s))%nat /\
+    match StreamDefs.run (disk_bytes s) StreamProofs.zero_junk false with
+    | StreamDefs.Run StreamDefs.VEnd recs =>
+      (length log < length recs)%nat /\
+      match EmuCoreDefs.run (ex3_sx en) (lint_chans (s_chans (ex3_sx en)))
+                            (decode_stream en (s_chans (ex3_sx en)) (disk_bytes s) recs) with
+      | Ok ls => (10 <= length ls)%nat
+      | Err _ => False
+      end
+    | _ => False
+    end
+  | _ => False
+  end.
+
+Example C02_ex3_accepted_ovni_only : ex3_accepted [M_OVNI].
+Proof. vm_compute. repeat split; repeat constructor. Qed.
+
+Example C02_ex3_accepted_all_models : ex3_accepted all_models.
+Proof. vm_compute. repeat split; repeat constructor. Qed.
+
+(* the same by the theorem: its hypotheses are jointly satisfiable *)
+Example C02_ex3_by_theorem :
+  exists s log recs ls,
+    RtBufDefs.run true 64 (ex3_ops ++ [Flush; Free]) ex3_clock = RtBufDefs.ROk (s, log) /\
+    StreamDefs.run (disk_bytes s) StreamProofs.zero_junk false = StreamDefs.Run StreamDefs.VEnd recs /\
+    EmuCoreDefs.run (ex3_sx all_models) [] (decode_stream all_models (s_chans (ex3_sx all_models)) (disk_bytes s) recs) = Ok ls.
+Proof.
+  destruct (RtBufDefs.run true 64 (ex3_ops ++ [Flush; Free]) ex3_clock) as [[s log]| | |] eqn:E;
+    [|vm_compute in E; discriminate E..].
+  assert (L : LoaderPre.blen (disk_bytes s) < 2 ^ 63).
+  { vm_compute in E. injection E as <- _. vm_compute. reflexivity. }
+  destruct (C02_conformant_accepted 64 ex3_ops ex3_clock s log (ex3_sx all_models) all_models ex3_ms ex3_ti [0] []
+              StreamProofs.zero_junk) as (recs & ls & H1 & H2); try (vm_compute; reflexivity); try lia; try exact E; try exact L.
+  - apply self_in_sublists.
+  - repeat constructor; cbn; intuition discriminate.
+  - intros m [<-|[<-|[]]]; cbn; lia.
+  - cbn. discriminate.
+  - cbn. discriminate.
+  - intros idx [<-|[]]. vm_compute. discriminate.
+  - exists s, log, recs, ls. auto.
+Qed.
+
+(* the program is rejected by the discipline if the pop does not match, and the emulator-core model
+   rejects its trace as well (the discipline is not stronger than needed here) *)
+Example C02_ex3_bad_pop :
+  let ops := [Emit 79 72 120 [[0; 0; 0; 0]]; MarkPush 1 5; MarkPop 1 6; Emit 79 72 101 []] in
+  emu_ready ex3_ms [0] true ops = false /\
+  match RtBufDefs.run true 64 (ops ++ [Flush; Free]) ex3_clock with
+  | RtBufDefs.ROk (s, _) =>
+    match StreamDefs.run (disk_bytes s) StreamProofs.zero_junk false with
+    | StreamDefs.Run StreamDefs.VEnd recs =>
+      match EmuCoreDefs.run (ex3_sx [M_OVNI]) [] (decode_stream [M_OVNI] (s_chans (ex3_sx [M_OVNI])) (disk_bytes s) recs) with
+      | Ok _ => False
+      | Err _ => True
+      end
+    | _ => False
+    end
+  | _ => False
+  end.
+Proof. vm_compute. split; [reflexivity|exact I]. Qed.
